@@ -207,3 +207,10 @@ def extract_fixtures(log=sys.stderr):
     finally:
         fcntl.flock(lockf, fcntl.LOCK_UN)
         lockf.close()
+
+
+def latest_facts_dir():
+    """most recent repo facts dir (debug helper; checks always call extract())"""
+    ds = [d for d in glob.glob(os.path.join(CACHE, "facts", "*")) if os.path.exists(os.path.join(d, "DONE"))
+          and not os.path.basename(d).startswith("fixtures-")]
+    return sorted(ds, key=os.path.getmtime)[-1]
